@@ -24,7 +24,7 @@ var LibModels = []string{
 	"strings.ReplaceAll(s, c, w) for a one-byte literal c: byte-for-byte map when w is one byte; otherwise every c in the result ends a copy of w (when c occurs in w only as its last byte), no c at all when c does not occur in w, other bytes are not invented",
 	"strings.TrimSpace: result is a sub-slice of the argument (same backing array, offsets within bounds); trimmed prefix/suffix bytes satisfy isTrimByte (uninterpreted superset of ASCII space); result does not start/end with an ASCII space byte; whole characters are trimmed (for valid UTF-8 input the result starts and ends on character boundaries)",
 	"strings.ToUpper/ToLower: length-preserving for ASCII input; ASCII letters mapped exactly, other ASCII bytes unchanged (non-ASCII: uninterpreted)",
-	"sort.Ints: same length, ascending, same set of values, distinctness preserved (consequences of 'sorted permutation'); sort.Strings/Float64s/Slice: same length, contents unconstrained (abstracted)",
+	"sort.Ints: same length, ascending, same set of values, distinctness preserved (consequences of 'sorted permutation'); sort.Strings/Float64s/Slice/SliceStable: same length, a permutation (every sum-shaped fold over the whole slice is preserved), otherwise unconstrained",
 	"other strings/strconv/unicode/utf8/math/path functions: uninterpreted deterministic functions of their arguments",
 }
 
@@ -263,8 +263,12 @@ func (x *Exec) libCall(key string, fn *types.Func, call *ast.CallExpr, recvExpr 
 			x.assign(call.Args[0], c, env)
 			return nil, true
 		}
-		x.W.Note(key + ": result abstracted (same length, contents unconstrained)")
-		x.assign(call.Args[0], nv, env)
+		x.W.Note(key + ": result abstracted (same length, a permutation: sum-shaped folds preserved)")
+		cs := x.W.Fresh("srt", nv.Sort)
+		cs.GoT = nv.GoT
+		x.W.Facts = append(x.W.Facts, Eq(cs, nv).S)
+		x.permutationFacts(cs, cur, x.W.SeqLen(cur))
+		x.assign(call.Args[0], cs, env)
 		return nil, true
 	}
 	pkg := ""
